@@ -330,6 +330,11 @@ theorem dtor_once (s : St) (op : Op) (s' : St) (ha : apply s op = some s')
     split at ha
     · simp only [Option.some.injEq] at ha; subst ha; exact dtorOnce_decRef h a
     · cases ha
+  | deref a b =>
+    simp only [apply] at ha
+    split at ha
+    · simp only [Option.some.injEq] at ha; subst ha; exact dtorOnce_incRef h b
+    · cases ha
   | edge a b =>
     simp only [apply] at ha
     split at ha
